@@ -38,7 +38,7 @@ theorem excluded_returns (cx : Ctx) (seg : Segment) (secs : List Str) (fuel : Na
 when it is parsed. -/
 theorem cyclic_subgroups_rejected (st : Settings) (s : SegmentS) (seg : Segment)
     (h : segmentRest st s = .ok seg) : hasSubgroupCycle seg.sectionsSubgroups = false := by
-  unfold segmentRest at h
+  unfold segmentRest segmentTail at h
   peel h
   all_goals first
     | contradiction
@@ -46,10 +46,400 @@ theorem cyclic_subgroups_rejected (st : Settings) (s : SegmentS) (seg : Segment)
       subst h
       simp_all
 
-/-- the statement still to be proved for the recursion bound (`fuelFor`): with the cycle guard
-the emitter never exhausts it. Until then a `diverge` outcome of the model on any generated
-case is reported by the check as a broken correspondence. -/
-def never_diverges_statement : Prop :=
-  ∀ (d : Document) (o : Opts) (m : Mode) (vc : Bool), generate d o m vc ≠ .error .diverge
+/-! ### the recursion bound is never exhausted -/
+
+theorem concatMapE_error {α β ε} (f : α → Except ε (List β)) (l : List α) (e : ε)
+    (h : concatMapE f l = .error e) : ∃ a ∈ l, f a = .error e := by
+  induction l with
+  | nil => simp [concatMapE] at h
+  | cons a as ih =>
+    unfold concatMapE at h
+    split at h
+    · rename_i e' he
+      injection h with h
+      subst h
+      exact ⟨a, List.mem_cons_self, he⟩
+    · split at h
+      · rename_i e' he
+        injection h with h
+        subst h
+        obtain ⟨x, hx, hfx⟩ := ih he
+        exact ⟨x, List.mem_cons_of_mem _ hx, hfx⟩
+      · cases h
+
+theorem depth_le_of_mem (c : FileInfo) (fs : List FileInfo) (h : c ∈ fs) :
+    FileInfo.depth c ≤ FileInfo.depthList fs := by
+  induction fs with
+  | nil => simp at h
+  | cons a as ih =>
+    unfold FileInfo.depthList
+    rcases List.mem_cons.1 h with h | h
+    · subst h; exact Nat.le_max_left _ _
+    · exact Nat.le_trans (ih h) (Nat.le_max_right _ _)
+
+theorem depth_pos (f : FileInfo) : 1 ≤ FileInfo.depth f := by
+  cases f; simp [FileInfo.depth]
+
+theorem subgroupsOf_subset (seg : Segment) (k : Str) : ∀ o ∈ subgroupsOf seg k, o ∈ subgroupValues seg := by
+  intro o ho
+  unfold subgroupsOf at ho
+  unfold subgroupValues
+  generalize seg.sectionsSubgroups = m at ho ⊢
+  induction m with
+  | nil => simp [lookup] at ho
+  | cons a as ih =>
+    obtain ⟨k', v⟩ := a
+    unfold lookup at ho
+    by_cases hk : k' = k
+    · simp [hk] at ho
+      simp [ho]
+    · simp [hk] at ho
+      simp only [List.map_cons, List.flatten_cons, List.mem_append]
+      exact Or.inr (ih ho)
+
+/-- the chain of sections the emitter is nested in for one file: no repetition (the guard),
+everything but the root of the chain is a sub-group section, and so is the current section
+once the chain is non-empty. -/
+def ChainInv (seg : Segment) (parents : List Str) (sec : Str) : Prop :=
+  parents.Nodup ∧ (∀ p ∈ parents.dropLast, p ∈ subgroupValues seg) ∧ (parents ≠ [] → sec ∈ subgroupValues seg)
+
+theorem chain_length (seg : Segment) (parents : List Str) (sec : Str) (h : ChainInv seg parents sec) :
+    parents.length ≤ (subgroupValues seg).length + 1 := by
+  have h1 : parents.dropLast.Nodup := List.Nodup.sublist (List.dropLast_sublist _) h.1
+  have h2 := List.Nodup.length_le_of_subset h1 (fun p hp => h.2.1 p hp)
+  simp only [List.length_dropLast] at h2
+  omega
+
+theorem chain_push (seg : Segment) (parents : List Str) (sec other k : Str)
+    (h : ChainInv seg parents sec) (hn : sec ∉ parents) (ho : other ∈ subgroupsOf seg k) :
+    ChainInv seg (sec :: parents) other := by
+  refine ⟨List.nodup_cons.2 ⟨hn, h.1⟩, ?_, fun _ => subgroupsOf_subset seg k other ho⟩
+  intro p hp
+  cases parents with
+  | nil => simp at hp
+  | cons q qs =>
+    simp only [List.dropLast_cons₂, List.mem_cons] at hp
+    rcases hp with hp | hp
+    · subst hp; exact h.2.2 (by simp)
+    · exact h.2.1 p hp
+
+/-- **the per-file emitter never exhausts its fuel**, provided the fuel covers the depth of
+the entry times the longest possible chain. -/
+theorem emitEntry_never_diverges (cx : Ctx) (seg : Segment) (secs : List Str) :
+    ∀ (fuel : Nat) (f : FileInfo) (sec base : Str) (parents : List Str),
+      ChainInv seg parents sec →
+      FileInfo.depth f * ((subgroupValues seg).length + 2) ≤ fuel + parents.length →
+      emitEntry cx seg secs fuel f sec base parents ≠ .error .diverge := by
+  intro fuel
+  induction fuel with
+  | zero =>
+    intro f sec base parents hinv hfuel
+    have hl := chain_length seg parents sec hinv
+    have hd := depth_pos f
+    have : (subgroupValues seg).length + 2 ≤ FileInfo.depth f * ((subgroupValues seg).length + 2) :=
+      Nat.le_mul_of_pos_left _ hd
+    omega
+  | succ n ih =>
+    intro f sec base parents hinv hfuel h
+    obtain ⟨p, kind, sf, pa, se, lo, so, fs, dir, c, keep⟩ := f
+    rw [emitEntry] at h
+    simp only [FileInfo.cond, FileInfo.sectionOrder, FileInfo.kind, FileInfo.path, FileInfo.keep, FileInfo.subfile,
+      FileInfo.sect, FileInfo.padAmount, FileInfo.linkerOffsetName, FileInfo.dir, FileInfo.files] at h
+    have hl := chain_length seg parents sec hinv
+    by_cases hinc : shouldEmit cx.o c = true
+    · simp only [hinc, Bool.not_true, Bool.false_eq_true, if_false] at h
+      by_cases hp : sec ∈ parents
+      · simp [hp] at h
+      · simp only [hp, if_false] at h
+        obtain ⟨k, _, hk⟩ := concatMapE_error _ _ _ h
+        split at hk
+        · -- the body (emit_file) failed with `diverge`
+          rename_i e hbody
+          injection hk with hk
+          subst hk
+          cases kind with
+          | object => cases hq : cx.esc cx.o p <;> simp [hq, liftPath] at hbody
+          | archive => cases hq : cx.esc cx.o p <;> simp [hq, liftPath] at hbody
+          | pad => simp at hbody
+          | linkerOffset => simp at hbody
+          | group =>
+            cases hq : cx.esc cx.o dir with
+            | error e => simp [hq, liftPath] at hbody
+            | ok d =>
+              simp only [hq, liftPath] at hbody
+              obtain ⟨child, hchild, hc⟩ := concatMapE_error _ _ _ hbody
+              have hdc := depth_le_of_mem child fs hchild
+              refine ih child k (pathPush base d) [] ⟨List.nodup_nil, by simp, by simp⟩ ?_ hc
+              simp only [FileInfo.depth] at hfuel
+              simp only [List.length_nil, Nat.add_zero]
+              have h1 : FileInfo.depth child * ((subgroupValues seg).length + 2)
+                  ≤ FileInfo.depthList fs * ((subgroupValues seg).length + 2) := Nat.mul_le_mul_right _ hdc
+              have h2 : (FileInfo.depthList fs + 1) * ((subgroupValues seg).length + 2)
+                  = FileInfo.depthList fs * ((subgroupValues seg).length + 2) + ((subgroupValues seg).length + 2) := by
+                rw [Nat.add_mul, Nat.one_mul]
+              omega
+        · -- the sub-group expansion failed with `diverge`
+          rename_i a ha
+          split at hk
+          · rename_i e hsubs
+            injection hk with hk
+            subst hk
+            simp only [Bool.or_eq_true, Bool.and_eq_true, List.isEmpty_iff] at hsubs
+            split at hsubs
+            · cases hsubs
+            · obtain ⟨other, hother, ho⟩ := concatMapE_error _ _ _ hsubs
+              refine ih _ other base (sec :: parents) (chain_push seg parents sec other k hinv hp hother) ?_ ho
+              simp only [List.length_cons]
+              omega
+          · cases hk
+    · have hf : shouldEmit cx.o c = false := by
+        cases hh : shouldEmit cx.o c
+        · rfl
+        · exact absurd hh hinc
+      simp [hf] at h
+
+theorem emitSection_never_diverges (cx : Ctx) (seg : Segment) (sec : Str) (secs : List Str) :
+    emitSection cx seg sec secs ≠ .error .diverge := by
+  intro h
+  unfold emitSection at h
+  cases hb : cx.esc cx.o cx.d.settings.basePath with
+  | error e => simp [hb, liftPath] at h
+  | ok b =>
+    simp only [hb, liftPath] at h
+    have key : ∀ base, concatMapE (fun file => emitEntry cx seg secs (fuelFor seg) file sec base []) seg.files
+        ≠ .error .diverge := by
+      intro base hc
+      obtain ⟨file, hfile, hf⟩ := concatMapE_error _ _ _ hc
+      refine emitEntry_never_diverges cx seg secs _ file sec base [] ⟨List.nodup_nil, by simp, by simp⟩ ?_ hf
+      have := depth_le_of_mem file seg.files hfile
+      simp only [fuelFor, subgroupValues, List.length_nil, Nat.add_zero]
+      exact Nat.le_trans (Nat.mul_le_mul_right _ this) (Nat.le_succ _)
+    by_cases hr : cx.refPartial = true
+    · simp only [hr, if_true] at h
+      exact key _ h
+    · simp only [hr, if_false] at h
+      cases hd : cx.esc cx.o seg.dir with
+      | error e => simp [hd] at h
+      | ok d =>
+        simp only [hd] at h
+        exact key _ h
+
+theorem sectionLoop_error (f : Str → R (List Line)) (l : List Str) (e : Fail)
+    (h : sectionLoop f l = .error e) : ∃ s ∈ l, f s = .error e := by
+  induction l with
+  | nil => simp [sectionLoop] at h
+  | cons a as ih =>
+    cases as with
+    | nil => exact ⟨a, List.mem_cons_self, by simpa [sectionLoop] using h⟩
+    | cons b bs =>
+      simp only [sectionLoop] at h
+      split at h
+      · rename_i e' he
+        injection h with h; subst h
+        exact ⟨a, List.mem_cons_self, he⟩
+      · split at h
+        · rename_i e' he
+          injection h with h; subst h
+          obtain ⟨s, hs, hfs⟩ := ih he
+          exact ⟨s, List.mem_cons_of_mem _ hs, hfs⟩
+        · cases h
+
+theorem writeSegment_never_diverges (cx : Ctx) (seg : Segment) (secs : List Str) (nl : Bool) :
+    writeSegment cx seg secs nl ≠ .error .diverge := by
+  intro h
+  unfold writeSegment at h
+  split at h
+  · rename_i e he
+    injection h with h; subst h
+    obtain ⟨s, _, hs⟩ := sectionLoop_error _ _ _ he
+    split at hs
+    · rename_i e' he'
+      injection hs with hs; subst hs
+      exact emitSection_never_diverges cx seg s secs he'
+    · cases hs
+  · cases h
+
+theorem writeSingleSegment_never_diverges (cx : Ctx) (seg : Segment) (secs : List Str) (nl : Bool) :
+    writeSingleSegment cx seg secs nl ≠ .error .diverge := by
+  intro h
+  unfold writeSingleSegment at h
+  split at h
+  · rename_i e he
+    injection h with h; subst h
+    obtain ⟨s, _, hs⟩ := sectionLoop_error _ _ _ he
+    split at hs
+    · rename_i e' he'
+      injection hs with hs; subst hs
+      exact emitSection_never_diverges cx seg s secs he'
+    · cases hs
+  · cases h
+
+theorem addSegment_never_diverges (cx : Ctx) (em : List Str) (seg : Segment) :
+    addSegment cx em seg ≠ .error .diverge := by
+  intro h
+  unfold addSegment at h
+  split at h
+  · cases h
+  · split at h
+    · rename_i e he
+      injection h with h; subst h
+      unfold classPart at he
+      repeat' (first | contradiction | split at he)
+      all_goals cases he
+    · split at h
+      · rename_i e he
+        injection h with h; subst h
+        exact writeSegment_never_diverges _ _ _ _ he
+      · split at h
+        · rename_i e he
+          injection h with h; subst h
+          exact writeSegment_never_diverges _ _ _ _ he
+        · cases h
+
+theorem addSegments_never_diverges (cx : Ctx) : ∀ (segs : List Segment) (em : List Str),
+    addSegments cx em segs ≠ .error .diverge := by
+  intro segs
+  induction segs with
+  | nil => intro em h; simp [addSegments] at h
+  | cons s rest ih =>
+    intro em h
+    unfold addSegments at h
+    split at h
+    · rename_i e he
+      injection h with h; subst h
+      exact addSegment_never_diverges _ _ _ he
+    · split at h
+      · rename_i e he
+        injection h with h; subst h
+        exact ih _ he
+      · cases h
+
+theorem addSingleSegment_never_diverges (cx : Ctx) (seg : Segment) :
+    addSingleSegment cx seg ≠ .error .diverge := by
+  intro h
+  unfold addSingleSegment at h
+  split at h
+  · rename_i e he
+    injection h with h; subst h
+    exact writeSingleSegment_never_diverges _ _ _ _ he
+  · split at h
+    · rename_i e he
+      injection h with h; subst h
+      exact writeSingleSegment_never_diverges _ _ _ _ he
+    · cases h
+
+theorem addAllSegments_never_diverges (cx : Ctx) : addAllSegments cx ≠ .error .diverge := by
+  intro h
+  unfold addAllSegments at h
+  split at h
+  · split at h
+    · exact addSingleSegment_never_diverges _ _ h
+    · cases h
+  · split at h
+    · rename_i e he
+      injection h with h; subst h
+      exact addSegments_never_diverges _ _ _ he
+    · cases h
+
+theorem partialSegments_never_diverges (d : Document) (o : Opts) (vc : Bool) (folder : Str)
+    (esc : Opts → Str → Except ErrKind Str) : ∀ (segs : List Segment) (em : List Str),
+    partialSegments d o vc folder esc em segs ≠ .error .diverge := by
+  intro segs
+  induction segs with
+  | nil => intro em h; simp [partialSegments] at h
+  | cons s rest ih =>
+    intro em h
+    unfold partialSegments at h
+    split at h
+    · exact ih _ h
+    · split at h
+      · rename_i e he
+        injection h with h; subst h
+        exact addSingleSegment_never_diverges _ _ he
+      · split at h
+        · rename_i e he
+          injection h with h; subst h
+          exact addSegment_never_diverges _ _ _ he
+        · split at h
+          · rename_i e he
+            injection h with h; subst h
+            exact ih _ he
+          · cases h
+
+theorem mapE_error {α β} (f : α → R β) (l : List α) (e : Fail) (h : mapE f l = .error e) :
+    ∃ a ∈ l, f a = .error e := by
+  induction l with
+  | nil => simp [mapE] at h
+  | cons a as ih =>
+    unfold mapE at h
+    split at h
+    · rename_i e' he
+      injection h with h; subst h
+      exact ⟨a, List.mem_cons_self, he⟩
+    · split at h
+      · rename_i e' he
+        injection h with h; subst h
+        obtain ⟨x, hx, hfx⟩ := ih he
+        exact ⟨x, List.mem_cons_of_mem _ hx, hfx⟩
+      · cases h
+
+/-- **C19, model level: generation always returns.** For every document, every option map,
+both modes: the outcome of `generate` is a success or an error *value* — the recursion bound
+of the emitter is never exhausted (and the model has no other way not to return a value:
+every function is total, the former panic sites are error values). -/
+theorem never_diverges (d : Document) (o : Opts) (m : Mode) (vc : Bool) :
+    generate d o m vc ≠ .error .diverge := by
+  intro h
+  unfold generate at h
+  cases m with
+  | normal =>
+    simp only at h
+    split at h
+    · rename_i e he
+      injection h with h; subst h
+      unfold generateNormal at he
+      split at he
+      · rename_i e' he'
+        injection he with he; subst he
+        exact addAllSegments_never_diverges _ he'
+      · cases he
+    · split at h
+      · rename_i e he
+        injection h with h; subst h
+        unfold mainDeps at he
+        repeat' (first | contradiction | split at he)
+        all_goals cases he
+      · cases h
+  | partialLink =>
+    simp only at h
+    split at h
+    · rename_i e he
+      injection h with h; subst h
+      unfold generatePartial at he
+      split at he
+      · cases he
+      · split at he
+        · rename_i e' he'
+          injection he with he; subst he
+          exact partialSegments_never_diverges _ _ _ _ _ _ _ he'
+        · cases he
+    · split at h
+      · rename_i e he
+        injection h with h; subst h
+        unfold mainDeps at he
+        repeat' (first | contradiction | split at he)
+        all_goals cases he
+      · split at h
+        · rename_i e he
+          injection h with h; subst h
+          obtain ⟨p, _, hp⟩ := mapE_error _ _ _ he
+          split at hp
+          · rename_i e' he'
+            injection hp with hp; subst hp
+            unfold partialTarget at he'
+            repeat' (first | contradiction | split at he')
+            all_goals cases he'
+          · cases hp
+        · cases h
 
 end Slinky.C19
